@@ -203,6 +203,8 @@ LEVEL_TEXT['C05'] += ' Added (unit globpush): SearchEnv::push_component delivers
 TECH['C05'] += ' + SearchEnv::push_component'
 LEVEL_TEXT['C12'] += ' Added (units fgresume, bgresume): fg removes a job from the table exactly when it has finished; bg sends SIGCONT to the process group of a live job only, sets `$!` to its process ID and makes it the current job, and never removes it.'
 TECH['C12'] += ' + fg / bg resume_job_by_index against ghost logs of the system and job-table calls'
+LEVEL_TEXT['C16'] += ' Added (unit assignone): one assignment expands its value once, asks for the variable of its name in the caller\'s scope, assigns once and exports exactly when asked and the assignment succeeded.'
+TECH['C16'] += ' + perform_assignment (ghost log of the variable requests)'
 
 def main():
     checks = []
